@@ -3,6 +3,7 @@
   Property theorems only.
 -/
 import NextestModel.Model.Syntax
+import NextestModel.Gen.Tables
 namespace NextestModel.C05
 open NextestModel NextestModel.Syntax
 
@@ -279,5 +280,19 @@ theorem or_is_left_associative {op a b} (h : IsOr (.union op a b)) : ∀ o x y, 
     | basic h => cases h
   | union _ _ hb => cases hb with
     | basic hh => cases hh
+
+/-! ## Tie to the source: predicates and their documented default matchers -/
+
+def dmName : DefaultMatcher → String
+  | .equal => "equal" | .contains => "contains" | .glob => "glob"
+
+/-- The predicate table of the model parser — names, `alt` order and default matcher of each
+    predicate — is the one in `parse_set_def` as extracted on this run: package, deps, rdeps,
+    binary_id, binary ↦ glob; kind ↦ equal; test ↦ contains; then platform, default, all, none. -/
+theorem default_matchers :
+    Gen.setDefTable.map (fun r => (r.1, r.2.1)) =
+      unaryTable.map (fun r => (r.1, dmName r.2.1)) ++
+        [("platform", "platform"), ("default", "nullary"), ("all", "nullary"), ("none", "nullary")] := by
+  decide
 
 end NextestModel.C05
